@@ -36,7 +36,7 @@ VxHarness make_skel(const VxConfig& c) {
     h.body = [=](int rank) {
         boost::mpi::communicator comm;
         for (int r = 0; r < R; ++r) {
-            pMPI::mpi_skel<Job> skel; skel.parts.resize(J); for (int j = 0; j < J; ++j) { skel.parts[j].id = j; skel.parts[j].round = r; skel.parts[j].complexity = distinct ? (j * 7 + 3) % 5 + j : 1; }
+            pMPI::mpi_skel<Job> skel; skel.parts.resize(J); for (int j = 0; j < J; ++j) { skel.parts[j].id = j; skel.parts[j].round = r; skel.parts[j].complexity = distinct == 2 ? ((j % 2 == 0) ? 0 : j) : (distinct ? (j * 7 + 3) % 5 + j : 1); }      // cx=2: some jobs have complexity 0 ("any job complexities")
             std::map<pMPI::JobId, pMPI::WorkerId> m = skel.run(comm, false);
             SH->maps[rank][r] = std::map<int,int>(m.begin(), m.end()); SH->rounds_done[rank] = r + 1;
         }
@@ -78,7 +78,7 @@ int run_c16(const Args& a, Recorder& rec) {
     std::vector<VxConfig> cfgs;
     for (int P = 1; P <= Pmax; ++P) for (int J = 0; J <= Jmax; ++J) for (int R = 1; R <= ((P <= 2) ? 3 : 2); ++R) for (int rdv = 0; rdv < 2; ++rdv) {
         if (R == 3 && !T && J > 2) continue;
-        for (int cx = 0; cx < 2; ++cx) { if (cx && J < 2) continue; VxConfig c; c.harness = "skel"; c.p["P"] = P; c.p["J"] = J; c.p["R"] = R; c.p["rdv"] = rdv; c.p["cx"] = cx; cfgs.push_back(c); }
+        for (int cx = 0; cx < 3; ++cx) { if (cx == 1 && J < 2) continue; if (cx == 2 && (J < 1 || R > 2 || (rdv && !T))) continue; VxConfig c; c.harness = "skel"; c.p["P"] = P; c.p["J"] = J; c.p["R"] = R; c.p["rdv"] = rdv; c.p["cx"] = cx; cfgs.push_back(c); }
         if (P >= 2) { VxConfig c; c.harness = "nomaster"; c.p["P"] = P; c.p["J"] = J; c.p["R"] = R; c.p["rdv"] = rdv; cfgs.push_back(c); }
     }
     // cheapest first, so that a deadline cuts the tail
